@@ -9,6 +9,9 @@
 (***************************************************************************)
 EXTENDS MC_Server, Json
 
+CONSTANTS HistMax,     \* bound on the number of harness steps of a history
+          EmitAtBound, \* TRUE: histories cut by the bound are printed too
+          Pin1, Pin2   \* programs of clients 1 and 2 (0: any program of Programs)
 VARIABLE hist
 gvars == <<S, mode, batch, todo, kAtStart, hist>>
 
@@ -17,24 +20,30 @@ Quiescent == /\ mode = "app" /\ Ready = {} /\ S.outst = {}
              /\ \A c \in Clients : todo[c] = <<>> \/ S.cl[c].st # "open" \/ S.cl[c].wr \/ S.cl[c].srvClosed
              /\ \A c \in Clients : S.cl[c].st # "idle"
 
-GInit == Init /\ hist = <<>>
+GInit == /\ Init /\ hist = <<>>
+         /\ Pin1 # 0 => todo[1] = Program(1, Pin1)
+         /\ Pin2 # 0 => todo[2] = Program(2, Pin2)
 GNext ==
-    /\ ~Quiescent /\ Len(hist) < 60
-    /\ \/ \E c \in Clients : \/ Connect(c) /\ Step([e |-> "connect", c |-> c])
-                             \/ Send(c) /\ Step([e |-> "send", c |-> c, bytes |-> Head(todo[c]),
-                                                   \* the descriptors the model chose to attach to this message
-                                                   fds |-> IF Len(S'.c2sfd[c]) > Len(S.c2sfd[c]) THEN S'.c2sfd[c][Len(S'.c2sfd[c])].fds ELSE <<>>])
-                             \/ Recv(c) /\ Step([e |-> "recv", c |-> c])
-                             \/ ShutWr(c) /\ Step([e |-> "shutwr", c |-> c])
-                             \/ ShutRd(c) /\ Step([e |-> "shutrd", c |-> c])
-                             \/ Close(c) /\ Step([e |-> "close", c |-> c])
-       \/ \E t \in S.outst : AppRespond(t) /\ Step([e |-> "respond", c |-> t.owner, tag |-> t.tag])
-       \/ AppFlush /\ Step([e |-> "flush"])
-       \/ AppKill /\ Step([e |-> "kill"])
-       \/ PollStart /\ Step([e |-> "poll"])
+    /\ ~Quiescent
+    /\ \/ /\ Len(hist) < HistMax
+          /\ \/ \E c \in Clients : \/ Connect(c) /\ Step([e |-> "connect", c |-> c])
+                                   \/ Send(c) /\ Step([e |-> "send", c |-> c, bytes |-> Head(todo[c]),
+                                                         \* the descriptors the model chose to attach to this message
+                                                         fds |-> IF Len(S'.c2sfd[c]) > Len(S.c2sfd[c]) THEN S'.c2sfd[c][Len(S'.c2sfd[c])].fds ELSE <<>>])
+                                   \/ Recv(c) /\ Step([e |-> "recv", c |-> c])
+                                   \/ ShutWr(c) /\ Step([e |-> "shutwr", c |-> c])
+                                   \/ ShutRd(c) /\ Step([e |-> "shutrd", c |-> c])
+                                   \/ Close(c) /\ Step([e |-> "close", c |-> c])
+             \/ \E t \in S.outst : AppRespond(t) /\ Step([e |-> "respond", c |-> t.owner, tag |-> t.tag])
+             \/ AppFlush /\ Step([e |-> "flush"])
+             \/ AppKill /\ Step([e |-> "kill"])
+             \/ PollStart /\ Step([e |-> "poll"])
+       \* the sub-steps of a poll are not harness steps: a poll that was started is always completed
        \/ (PollStep \/ PollEnd) /\ UNCHANGED hist
 GSpec == GInit /\ [][GNext]_gvars
 
-Emit == (Quiescent /\ hist # <<>>) => PrintT("REPLAY " \o ToJson(hist))
+\* a history is printed when it comes to rest, or when it reaches the bound (then every history of at
+\* most HistMax steps is a prefix of a printed one: exhaustive to that depth under model checking)
+Emit == (hist # <<>> /\ (Quiescent \/ (Len(hist) = HistMax /\ mode = "app" /\ EmitAtBound))) => PrintT("REPLAY " \o ToJson(hist))
 
 =============================================================================
